@@ -34,4 +34,14 @@ LEVEL = {
                     'answers Want n with |prefix| < n <= |message| (scalars, point, point list, series, header); concatenated messages decode in sequence.',
             'design_ref': '5 C14',
             'note': _TB + 'Bytes are modelled as integers 0..255 and floats as their bit patterns.'},
+    'C07': {'text': 'Theorems: the code\'s validation with freshly filled offsets accepts iff the declarative well-formedness (over unbounded integers) holds; '
+                    'NewHeader, Header.TakeFrom (for every complete encoding with in-range fields) and ParseArchiveInfoList accept exactly what passes that validation, '
+                    'decoded offsets are the contiguous ones, accepted headers round-trip. All entry points incl. real Create/Sync/Open and the CLI flags are compared with the model.',
+            'design_ref': '5 C07',
+            'note': _TB + 'xFilesFactor validity is decided on float32 bit patterns; strconv.ParseFloat is Go\'s own and its result is an input of the model.'},
+    'C19': {'text': 'Theorem: parse(print t) = t for all 2^32 timestamps (calendar by a vm_compute sweep over all 49 711 days lifted to a universal statement). '
+                    'Durations, retention lists, method names: the executable model of printers and parsers is compared with the code on boundary numerals, '
+                    'malformed classes and exhaustive short strings (their round-trip theorems are listed as not yet proved in DESIGN.md).',
+            'design_ref': '5 C19',
+            'note': _TB + 'time.Parse/Format are modelled for the one fixed layout, including the liberal forms time.Parse accepts (one-digit hour, fractional seconds).'},
 }
